@@ -60,7 +60,7 @@ func c20EndToEnd(t *gen.Tools, r *ev.Run, root, tier string) {
 		case o.Res.Hang || o.Res.Exit != 0:
 			bad = fmt.Sprintf("gocc refuses the valid rune literal (exit %d): %s", o.Res.Exit, oneLine(o.Res.Stdout+o.Res.Stderr))
 		case o.ReadErr != "":
-			bad = "unreadable tables: " + o.ReadErr
+			ev.Inconsistent("table reader cannot read the emitted lexer tables: %s", o.ReadErr)
 		case len(o.Lex.States) < 1 || len(o.Lex.States[0].Cases) != 1 || o.Lex.States[0].Cases[0].Lo != want || o.Lex.States[0].Cases[0].Hi != want:
 			bad = fmt.Sprintf("the generated lexer tests for %v, Go reads the literal as %#x", o.Lex.States[0].Cases, want)
 		}
